@@ -12,6 +12,14 @@ AST
              | ("m", sel)            modification `<target> = 100+<line>` of an earlier node that is certainly defined
                                      sel "n": nearest such node, "r": the definition on line 1 of the program
              | ("g", items)          group line with >= 1 child
+             | ("u",)                two lines: `$unit u<line> = 5 cm` and a node that needs it
+                                     `v<line+1> float = <line+1> [u<line>]`
+             | ("q", block)          a definition with a block *among its property lines*:
+                                     `v<line> int = <line>` / block one level deeper / `!tags ["t"]` at the block's
+                                     indentation (the property line is then the first line after the block; it
+                                     belongs to the definition).  Only when no node inside the block takes effect:
+                                     the library attaches a property to the last accepted node, and which node a
+                                     property after an accepted child belongs to is not this property's subject.
              | ("b", clauses, end)   block; clauses = ((cond, items), ...); cond in
                                         "T" `true`   "F" `false`
                                         "P" `("{?v1} == 1")`  (true until v1 has been modified; v1 starts as 1)
@@ -119,6 +127,11 @@ def items(k, bd, ing, A):
             yield ("m", "r")
     if k == 2 and A[1]:
         yield ("d", 1)
+        yield ("u",)
+    if k >= 3 and A[1] and bd > 0:
+        for h in block_headers(k - 2, bd, A):
+            for blk in blocks_of(h, bd, ing, A):
+                yield ("q", blk)
     if k >= 2 and not ing:
         for s in seqs(k - 1, bd, True, A):
             yield ("g", s)
@@ -136,6 +149,13 @@ def headers(n, bd, A):
             out.append(((k, "d", 0), rest))       # a modification cannot be the first line
         if k == 2 and A[1]:
             out.append(((k, "d", 1), rest))
+            out.append(((k, "u", None), rest))
+        if k >= 3 and A[1]:
+            for h in block_headers(k - 2, bd, A):
+                size = rest
+                for m in h[1]:
+                    size *= count(m - 1, bd - 1, False, A)
+                out.append(((k, "q", h), size))
         if k >= 2:
             out.append(((k, "g", None), count(k - 1, bd, True, A) * rest))
         for h in block_headers(k, bd, A):
@@ -151,6 +171,10 @@ def programs_under(n, bd, A, header):
     k, kind, detail = header
     if kind == "d":
         firsts = [("d", detail)]
+    elif kind == "u":
+        firsts = [("u",)]
+    elif kind == "q":
+        firsts = (("q", blk) for blk in blocks_of(detail, bd, False, A))
     elif kind == "g":
         firsts = (("g", s) for s in seqs(k - 1, bd, True, A))
     else:
@@ -194,6 +218,7 @@ class Walk:
         self.root_def = None       # (name,) of a definition on line 1
         self.uses_root = False
         self.root_modified = False
+        self.accepted = 0          # number of typed nodes that took effect so far
         self.ref_defs = False
         self.depth_max = 0
         self.effective_lines = 0
@@ -238,6 +263,7 @@ class Walk:
                 if eff:
                     self.data[full] = val
                     self.effective_values.add(val)
+                    self.accepted += 1
                 if self.nblocks:
                     self.probe_in_or_after_block = True
                 if it[1] == 1:
@@ -271,6 +297,43 @@ class Walk:
                 if self.nblocks:
                     self.probe_in_or_after_block = True
                 self.feat.add("modification")
+                self._tally(eff, 1)
+            elif kind == "u":
+                ln = self._emit(ind, None)
+                self.lines[-1] = (ind, "$unit u%d = 5 cm" % ln)
+                ln2 = self._emit(ind, "v%d float = %d [u%d]" % (ln + 1, ln + 1, ln))
+                full = ".".join(gpath + ("v%d" % ln2,))
+                self.def_lines[ln2 - 1] = full
+                if eff:
+                    self.data[full] = ln2
+                    self.effective_values.add(ln2)
+                    self.accepted += 1
+                if self.nblocks:
+                    self.probe_in_or_after_block = True
+                self.feat.add("unit-directive")
+                self._tally(eff, 2)
+            elif kind == "q":
+                ln = self._emit(ind, None)
+                name = "v%d" % ln
+                self.lines[-1] = (ind, "%s int = %d" % (name, ln))
+                full = ".".join(gpath + (name,))
+                self.def_lines[ln - 1] = full
+                visible.append((gpath, name, full))
+                if eff:
+                    self.data[full] = ln
+                    self.effective_values.add(ln)
+                    self.accepted += 1
+                self._tally(eff, 1)
+                before = self.accepted
+                self._block(it[1], ind + 1, gpath + (name,), visible, eff)
+                if self.accepted != before:
+                    raise Invalid("a node inside the block took effect: owner of the following property line not demanded")
+                self._emit(ind + 1, '!tags ["t"]')
+                if eff:
+                    self.tagged.add(full)
+                self.probe_in_or_after_block = True
+                self.feat.add("property-line")
+                self.feat.add("property-line-after-block")
                 self._tally(eff, 1)
             elif kind == "g":
                 if self.ngroups >= len(self.gnames):
@@ -366,7 +429,9 @@ def _shape(seq, f, chain, follower):
     for pos, it in enumerate(seq):
         nxt = seq[pos + 1] if pos + 1 < len(seq) else None
         nxt_kind = ("keyword" if nxt[0] == "b" else "node") if nxt is not None else follower
-        if it[0] == "g":
+        if it[0] == "q":
+            _shape((it[1],), f, chain, "node")
+        elif it[0] == "g":
             _shape(it[1], f, chain, nxt_kind)
             opened = _last_line_block_chain(it[1])
             if opened and nxt_kind:
@@ -486,56 +551,73 @@ def flat_text(seq, unit=2):
     return "\n".join(out)
 
 
+def _in_effect(blocks):
+    """True / False / None (not judged) for a position inside the current clauses of `blocks`"""
+    vals = [b[3] for b in blocks]
+    if any(v is False for v in vals):
+        return False
+    if any(v is None for v in vals):
+        return None
+    return True
+
+
 def flat_reference(seq):
     """Classify a flat line sequence by the statement.
 
-    returns (verdict, info, state)      state = canonical stack of open blocks after the last line (None unless ok)
+    returns (verdict, info, state)      state = canonical stack of open blocks after the last line (None if terminal)
       ("ok", frozenset of positions of node lines that take effect, state)
+      ("unjudged", reason, state)   the sequence contains a @case after the @else of its block.  Whether that @case
+                                   is legal and what it selects is not demanded, so effects are not compared - but
+                                   the sequence is still *extended*, because a second @else of the same block is a
+                                   misplaced @else whatever lies between
       ("must-raise", reason, None)  a misplaced @else/@end at a position that is itself in effect
-      ("undefined", reason, None)   statement silent: @case after @else of the same block; a misplaced keyword inside
-                                   a clause that is not selected (the statement does not say whether skipped text is
-                                   validated)
+      ("undefined", reason, None)   a misplaced keyword inside a clause that is not selected or not judged (the
+                                   statement does not say whether skipped text is validated)
     Blocks are identified by the indentation of their keywords: a line indented no deeper than the keyword ends the
     clause (a keyword at exactly that indentation continues/ends the same block, any other line closes it).
     """
-    stack = []       # [indent, has_else, found_true, current_selected]
+    stack = []       # [indent, has_else, found_true, current_selected (None = not judged)]
     eff = set()
+    unjudged = False
     for pos, (k, ind) in enumerate(seq):
         if k == "n":
             while stack and stack[-1][0] >= ind:
                 stack.pop()
-            if all(b[3] for b in stack):
+            if _in_effect(stack):
                 eff.add(pos)
             continue
         while stack and stack[-1][0] > ind:
             stack.pop()
         top = stack[-1] if stack and stack[-1][0] == ind else None
-        outer_ok = all(b[3] for b in (stack[:-1] if top is not None else stack))
+        # a keyword of block `top` sits in the clauses of the blocks below it; any other keyword in all open clauses
+        here = _in_effect(stack[:-1] if top is not None else stack)
         if k in ("cT", "cF"):
             val = k == "cT"
             if top is None:
                 stack.append([ind, False, val, val])
             elif top[1]:
-                return ("undefined", "case-after-else", None)
+                top[3] = None               # @case after @else: selection not judged from here on
+                unjudged = True
             else:
                 top[3] = val and not top[2]
                 top[2] = top[2] or val
-        elif k == "el":
-            if top is None:
-                why = "else-without-open-block-at-level"
-            elif top[1]:
-                why = "else-after-else"
-            else:
-                top[1] = True
-                top[3] = not top[2]
-                continue
-            # the misplaced keyword sits in the clauses of `stack` (all of them if top is None)
-            inside_ok = all(b[3] for b in stack) if top is None else outer_ok
-            return ("must-raise", why, None) if inside_ok else ("undefined", why + "-in-unselected-clause", None)
-        else:
-            if top is None:
-                inside_ok = all(b[3] for b in stack)
-                why = "end-without-open-block-at-level"
-                return ("must-raise", why, None) if inside_ok else ("undefined", why + "-in-unselected-clause", None)
+            continue
+        if k == "el" and top is not None and not top[1]:
+            top[1] = True
+            top[3] = not top[2]
+            continue
+        if k == "en" and top is not None:
             stack.pop()
-    return ("ok", frozenset(eff), tuple(tuple(b) for b in stack))
+            continue
+        if k == "el":
+            why = ("else-without-open-block-at-level" if top is None else
+                   "second-else-after-case" if top[3] is None else "else-after-else")
+        else:
+            why = "end-without-open-block-at-level"
+        if here is True:
+            return ("must-raise", why, None)
+        return ("undefined", why + ("-in-unselected-clause" if here is False else "-in-unjudged-clause"), None)
+    state = tuple(tuple(b) for b in stack)
+    if unjudged:
+        return ("unjudged", "case-after-else", state)
+    return ("ok", frozenset(eff), state)
